@@ -33,6 +33,8 @@ func balErr(kind string) error {
 		return fmt.Errorf("get conn: %w", mysql.NewConnTypeError("127.0.0.1:3306", "dial failed"))
 	case "other":
 		return errors.New("some other failure")
+	case "poolclosed":
+		return backend.ErrConnectionPoolClosed
 	case "sqlerr":
 		return mysql.NewError(1045, "access denied")
 	}
